@@ -9,8 +9,15 @@
 
    Lattice point positions are arbitrary (cpos : any map), values arbitrary reals. *)
 From Coq Require Import List ZArith NArith Bool Reals Lra Lia.
-From Sdfx Require Import Num.Ops Num.RInst Geo.Vec Generated.MarchTables
-  Render.Balance Render.MC Render.MS Render.Lattice Render.Interp.
+From Sdfx Require Import Num.Ops.
+From Sdfx Require Import Num.RInst.
+From Sdfx Require Import Geo.Vec.
+From Sdfx Require Import Generated.MarchTables.
+From Sdfx Require Import Render.Balance.
+From Sdfx Require Import Render.MC.
+From Sdfx Require Import Render.MS.
+From Sdfx Require Import Render.Lattice.
+From Sdfx Require Import Render.Interp.
 Import ListNotations.
 
 Lemma flat_map_filter_map {A B C} (f : A -> list B) (g : B -> C) (keep : C -> bool) l :
